@@ -3,8 +3,9 @@ SPECIFICATION SpecM
 VIEW View
 CONSTRAINT Depth
 CHECK_DEADLOCK FALSE
-CONSTANTS LB = 2 Prefill = 0 MaxDepth = 6 MaxLen = 5 MaxMulti = 3 QLookback = FALSE Export = FALSE
+CONSTANTS LB = 2 Prefill = 0 MaxDepth = 6 MaxLen = 5 MaxMulti = 3 MaxBatch = 3 QLookback = FALSE Export = FALSE
 INVARIANT StrictlyIncreasing
 INVARIANT AddOK
 INVARIANT MultiOK
+INVARIANT BatchOK
 INVARIANT NoErrorOnStored
